@@ -2,8 +2,8 @@ package sym
 
 import (
 	"fmt"
-	"os"
 	"math/rand"
+	"os"
 	"sort"
 	"strings"
 	"sync"
@@ -158,10 +158,10 @@ func (e *Explorer) Run(harness string, maxPaths int, maxSamples int) (*HarnessRe
 
 	// reset per-machine stats
 	type snap struct {
-		funcs, intr             map[string]int
-		sat, unsat, unk, errs   int
-		feas, asrt, conc        int
-		solverTime, interpTime  time.Duration
+		funcs, intr            map[string]int
+		sat, unsat, unk, errs  int
+		feas, asrt, conc       int
+		solverTime, interpTime time.Duration
 	}
 	snaps := make([]snap, len(e.machines))
 	for i, m := range e.machines {
